@@ -109,8 +109,13 @@ impl<T: Write + Seek> ShapeWriter<T> {
                     ),
                     min: PointZ::new(f64::INFINITY, f64::INFINITY, f64::INFINITY, f64::INFINITY),
                 };
+                // A finalize() issued before the first shape already put a header
+                // at the start of the destinations: the reserved header must replace
+                // it, not follow it.
+                self.shp_dest.seek(SeekFrom::Start(0))?;
                 self.header.write_to(&mut self.shp_dest)?;
                 if let Some(shx_dest) = &mut self.shx_dest {
+                    shx_dest.seek(SeekFrom::Start(0))?;
                     self.header.write_to(shx_dest)?;
                 }
             }
